@@ -1,13 +1,30 @@
 (* C13 - Bases are never modified and results/clones share no state (value-semantics model). *)
 From Verif Require Import Lib.Base Model.Cfg Model.Url Model.Api Model.Obs Proofs.Frame.
 
-Theorem C13_step_frame : forall idna_raw c s o,
+(* reads_other o: the one operation whose argument comes from the other URL, SetSearchParams(other.SearchParams()) *)
+Theorem C13_step_frame : forall idna_raw c s o, reads_other o = false ->
   get (fst (hstep idna_raw c s o)) (negb (written o)) = get s (negb (written o)).
 Proof. exact hstep_frame. Qed.
 Print Assumptions C13_step_frame.
 
+(* SetSearchParams leaves the URL whose list it was given as a call of its SearchParams() getter leaves it (the list is
+   materialised, nothing else), and the adopting URL holds that list and the query it serializes to *)
+Theorem C13_adopt_frame : forall idna_raw c s slot,
+  get (fst (hstep idna_raw c s (OSpAdopt slot))) (negb slot) =
+  match get s slot with
+  | Some _ => option_map (fun v => fst (ensure_sp c v)) (get s (negb slot))
+  | None => get s (negb slot)
+  end.
+Proof. exact adopt_frame. Qed.
+Print Assumptions C13_adopt_frame.
+
+Theorem C13_adopt_reflected : forall idna_raw c s slot u v, get s slot = Some u -> get s (negb slot) = Some v ->
+  get (fst (hstep idna_raw c s (OSpAdopt slot))) slot = Some (sp_update c (fst (ensure_sp c u)) (snd (ensure_sp c v))).
+Proof. exact adopt_reflected. Qed.
+Print Assumptions C13_adopt_reflected.
+
 Theorem C13_history_frame : forall idna_raw c sl ops s,
-  Forall (fun o => written o = sl) ops -> get (hfold idna_raw c s ops) (negb sl) = get s (negb sl).
+  Forall (fun o => written o = sl /\ reads_other o = false) ops -> get (hfold idna_raw c s ops) (negb sl) = get s (negb sl).
 Proof. exact history_frame. Qed.
 Print Assumptions C13_history_frame.
 
